@@ -118,6 +118,23 @@ func availableCommands(help string) []string {
 	return out
 }
 
+// declaredAliases: the names on the "Aliases:" line of a command's help output.
+func declaredAliases(help string) []string {
+	lines := strings.Split(help, "\n")
+	for i, ln := range lines {
+		if strings.HasPrefix(ln, "Aliases:") && i+1 < len(lines) {
+			var out []string
+			for _, a := range strings.Split(lines[i+1], ",") {
+				if a = strings.TrimSpace(a); a != "" {
+					out = append(out, a)
+				}
+			}
+			return out
+		}
+	}
+	return nil
+}
+
 func kebab(s string) string {
 	var sb strings.Builder
 	for i, r := range s {
@@ -182,11 +199,28 @@ func bootProbe(c *cliEnv, pairs map[string]bool) (vs []cliViolation, txCmds, qCm
 	}
 	txCmds = availableCommands(tr.Out)
 	qCmds = availableCommands(qr.Out)
+	// every alias a command declares must reach that command (cobra resolves a name to the first
+	// sibling that claims it: an alias declared twice silently shadows the second command)
+	aliasCheck := func(group, name, help string) {
+		for _, al := range declaredAliases(help) {
+			if al == name {
+				continue
+			}
+			r, ok := chk(group, "fundraising", al, "--help")
+			if ok && r.Out != help {
+				vs = append(vs, cliViolation{"wiring.alias", name, fmt.Sprintf("`%s fundraising %s` is declared as an alias of `%s` but reaches another command: %s", group, al, name, firstLine(r.Out, "fundraisingd "+group+" fundraising")), []string{group, "fundraising", al, "--help"}})
+			}
+		}
+	}
 	for _, s := range txCmds {
-		chk("tx", "fundraising", s, "--help")
+		if r, ok := chk("tx", "fundraising", s, "--help"); ok {
+			aliasCheck("tx", s, r.Out)
+		}
 	}
 	for _, s := range qCmds {
-		chk("query", "fundraising", s, "--help")
+		if r, ok := chk("query", "fundraising", s, "--help"); ok {
+			aliasCheck("query", s, r.Out)
+		}
 	}
 	has := func(list []string, name string) bool {
 		for _, x := range list {
